@@ -406,13 +406,24 @@ func genComponent(t *rapid.T, numGlyphs int) refglyf.Component {
 	if rapid.Bool().Draw(t, "argsAreXY") {
 		k.Flags |= refglyf.ArgsAreXYValues
 	}
-	switch rapid.IntRange(0, 3).Draw(t, "transform") {
+	switch rapid.IntRange(0, 4).Draw(t, "transform") {
 	case 1:
 		k.Flags |= refglyf.WeHaveAScale
 	case 2:
 		k.Flags |= refglyf.WeHaveAnXAndYScale
 	case 3:
 		k.Flags |= refglyf.WeHaveATwoByTwo
+	case 4:
+		// more than one of the (nominally exclusive) transform bits: every
+		// TrueType reader resolves this by priority scale > x-and-y scale >
+		// two-by-two (FreeType, x/image, this library), which fixes the
+		// record length; the record must survive bit for bit
+		k.Flags |= rapid.SampledFrom([]uint16{
+			refglyf.WeHaveAScale | refglyf.WeHaveAnXAndYScale,
+			refglyf.WeHaveAScale | refglyf.WeHaveATwoByTwo,
+			refglyf.WeHaveAnXAndYScale | refglyf.WeHaveATwoByTwo,
+			refglyf.WeHaveAScale | refglyf.WeHaveAnXAndYScale | refglyf.WeHaveATwoByTwo,
+		}).Draw(t, "transformBits")
 	}
 	opt := rapid.IntRange(0, 31).Draw(t, "optFlags")
 	for i, f := range optionalCompFlags {
